@@ -80,7 +80,7 @@ def avatarStep (w : WSt) (o : Nat → Orc) (ch : Char) : WR :=
   | .readColor => .ok ({ w with avt := .chars }, .ok)
   | .moveCursor k =>
     if k = 1 then .ok ({ w with avt := .moveCursor 2, avtChar := ch }, .ok)
-    else if k = 2 then wlimit { w with avt := .chars } { c with x := w.avtChar.toNat, y := ch.toNat } .ok
+    else if k = 2 then wlimit { w with avt := .chars } { c with x := max 0 ((ch.toNat : Int) - 1), y := max 0 ((w.avtChar.toNat : Int) - 1) } .ok
     else .ok (w, .err)
 
 def pcboardStep (w : WSt) (o : Nat → Orc) (ch : Char) : WR :=
